@@ -131,6 +131,8 @@ def run_writer(case, ctx):
     src = conv.build_source(case['src'], ctx['scratch'])
     geom = case['src']['geom']
     out = ctx['scratch'].file('out.sgz')
+    if src.get('segyio_structured'):
+        return {'nontrivial': False, 'counters': {'skipped_segyio_infers_regular_cube': 1}}
     rate, bs = case['rate'], tuple(case['bs'])
     if geom == 'numpy':
         conv.convert_numpy(src['data'], out, rate, bs, ilines=src['ilines'], xlines=src['xlines'], samples=src['samples'])
